@@ -47,6 +47,7 @@ Proof.
       cbn [flat_map]. rewrite E. cbn [app]. eauto.
   - (* ESum *) destruct IHe as (b & t & -> & Hb). cbn [app]. eauto.
   - (* EAttrPost *) destruct IHe as (b & t & -> & Hb). cbn [app]. eauto.
+  - (* EMem *) destruct m, k; cbn [mem_ptg cls_ptg app]; eexists; eexists; (split; [reflexivity|discriminate]).
 Qed.
 
 Lemma exp_target_b_plain : forall e extra, exp_target_b (encode_xlsb e) extra = None.
@@ -151,12 +152,15 @@ Lemma wfb_base_some : forall p q e, wf_xlsb (benv (Some p)) e = wf_xlsb (benv (S
 Proof. reflexivity. Qed.
 
 Lemma wfb_none_some : forall p e, wf_xlsb (benv None) e = true -> wf_xlsb (benv (Some p)) e = true.
-Proof. intros p e H. unfold wf_xlsb in *. cbn [be_base benv_at be_names be_sheets] in *. apply wf_allow_mono. exact H. Qed.
+Proof.
+  intros p e H. unfold wf_xlsb, wf_xlsb_core in *. cbn [be_base benv_at be_names be_sheets] in *.
+  apply andb_prop in H. destruct H as [H Hd]. rewrite Hd, andb_true_r. apply wf_allow_mono. exact H.
+Qed.
 
 Lemma renderb_array_any_base : forall p e, wf_xlsb (benv None) e = true -> rendb (Some p) e = rendb None e.
 Proof.
-  intros p e H. unfold render_xlsb, wf_xlsb in *. cbn [be_base benv_at be_names be_sheets] in *.
-  eapply render_no_n. exact H.
+  intros p e H. unfold render_xlsb, wf_xlsb, wf_xlsb_core in *. cbn [be_base benv_at be_names be_sheets] in *.
+  apply andb_prop in H. destruct H as [H _]. eapply render_no_n. exact H.
 Qed.
 
 (* ---------- one formula cell record ---------- *)
